@@ -45,7 +45,12 @@ echo "--- demo WITH patch (must fail)"
 (cd "$W" && go test $RACE -vet=off -count=1 -run "^($RUNRE)\$" ./$PKG 2>&1 | tail -4)
 rm -f "$W/$PKG/zz_seed_demo_test.go"
 echo "--- existing suite with patch (must pass)"
-(cd "$W" && go test -vet=off -count=1 ./... 2>&1 | grep -v "^ok\|no test files" | head -10; echo "suite-exit=${PIPESTATUS[0]}")
+(cd "$W" && go test -vet=off -count=1 ./... > "$W/.suite.log" 2>&1; rc=$?; grep -v "^ok\|no test files" "$W/.suite.log" | head -10; echo "suite-exit=$rc"
+ if [ $rc -ne 0 ]; then
+   pkgs=$(grep "^FAIL\s" "$W/.suite.log" | awk '{print $2}' | sort -u | tr '\n' ' ')
+   echo "re-running failing packages alone (the suite has a timing-dependent bulk test): $pkgs"
+   go test -vet=off -count=2 $pkgs 2>&1 | tail -3; echo "suite-rerun-exit=${PIPESTATUS[0]}"
+ fi)
 echo "--- ./check $ID $TIER against the patched tree"
 VERIF_REPO="$W" timeout 5400 /verif/check "$ID" "$TIER" 2>&1 | grep -v "^KNOWN" | cut -c1-600 | tail -25
 echo "check-exit=${PIPESTATUS[0]}"
